@@ -4,7 +4,8 @@ package rules
 //
 // Files: c14.go (entry, role resolution, R-C14-4 who-may-mutate/locks, R-C14-5 QoS provenance),
 // c14_find.go (R-C14-1 matcher transition table), c14_gate.go (R-C14-2 validation gate,
-// R-C14-3 pruning guard), c14_batch.go (R-C14-6 batch consistency trie <-> session).
+// R-C14-3 pruning guard), c14_batch.go (R-C14-6 batch consistency trie <-> session),
+// c14_split.go (R-C14-7 wildcard placement in splitTopic; added for seeded regression C14/b).
 //
 // Everything is resolved by role: the trie fields by their *types.Var (topicNode.clients,
 // topicNode.nodes, TopicManager.root, topicLevelManager.data), the level source by callee
@@ -68,7 +69,19 @@ package rules
 //   P13 prune loop moved into a helper function (lock provided two call levels up)
 //   P14 post-loop '#' collect moved into a helper -> exit 2 (undecided: matcher split across helpers)
 //
-// GENUINE DEFECTS found on the unchanged tree (left violated; demo out/zz_triage_test.go):
+// R-C14-7 (second pass; driver out/mut2.py; "T-" as above):
+//   seeded C14/b  check moved after levelsLoc++ (reads the next, empty slot)    -> |closed level tested before acceptance
+//   S1 T- '/'-branch check dropped          S2 tail check dropped               -> same
+//   S3 T- check reads levels[levelsLoc] *before* the store (still empty)        -> same
+//   S4 T- flag reset before the check       S5 check on topic[levelStart:i] after levelStart advanced -> same
+//   S7 T- bound `> 2`                                                           -> same
+//   S6    '+' branch does not raise the flag                                    -> |wildcard characters raise the flag
+//   S8    tail test on levels[levelsLoc-1] (arithmetic index, inverted flag)    -> exit 2 (undecided)
+//   preserving, exit 0: SP1 check on the slot after the store but before levelsLoc++; SP2 `len >= 2`,
+//   `!(len <= 1)`, operands swapped; SP3 flag saved in a local, reset first; SP4 check on the temp
+//   variable after the cursor advanced; SP5 switch with fallthrough; SP6 append instead of indexed store
+//
+// GENUINE DEFECTS found on the tree of the first pass (since fixed in /repo: 8fc741a, 90acb3c; demo out/zz_triage_test.go):
 //   R-C14-6 |(TopicManager).subscribe|all-or-nothing            — out/fix-1.diff
 //   R-C14-6 |(TopicManager).unsubscribe|every filter processed  — out/fix-2.diff
 
@@ -106,9 +119,10 @@ func c14(c *core.Ctx) string {
 	c.Rule("R-C14-4", "lock discipline: every store into topicNode.clients/nodes is executed with the manager's write lock held, every other access (field selection, collector call) with the read or write lock held — taken in the accessing function or held at all of its call sites (helpers, depth <= 3); locks are released at every exit; the maps do not escape through aliases; node literals create fresh maps; TopicManager.root is never reassigned")
 	c.Rule("R-C14-5", "QoS provenance: the only stores into the result map copy (client, qos) pairs ranged from some node's clients map; insert stores the caller's qos under the caller's client id; subscribe pairs filter i with qoss[i]")
 	c.Rule("R-C14-6", "batch consistency between trie and session: the SUBSCRIBE handler records/acknowledges a batch only if TopicManager.subscribe succeeded; subscribe returns a non-nil error whenever a filter of the batch was found malformed, and is all-or-nothing (no error return after an insert succeeded unless the whole batch was validated first); the UNSUBSCRIBE/disconnect/session-discard paths forget the whole batch whatever unsubscribe returns, so unsubscribe must process every filter of the batch (no exit before the removal loop is exhausted) — if the callers are changed to gate on the error, the contract checked becomes all-or-nothing instead")
+	c.Rule("R-C14-7", "wildcard placement in splitTopic: an iteration that knows the character to be '+' or '#' ends with the wildcard flag raised; whenever a level is closed (stored into the result slice) with the flag raised, the length of that very level — the stored value or its slot, read before any variable it is spelled with is reassigned — is tested to be <= 1 before the topic can be accepted")
 	c.NotDecided = []string{
 		"correctness of the trie as a whole over arbitrary histories (walk of insert/remove reaching the right node is not decided; the matcher is decided per level, whole-topic correctness follows by induction argued in DESIGN, not machine-checked)",
-		"splitTopic's character automaton (wildcard placement, empty filter) — value semantics",
+		"the rest of splitTopic's character automaton: '#' only as the last character (cursor arithmetic), over-rejection of valid filters (flag not reset), the empty filter — value semantics; R-C14-7 decides only that a wildcard level's own length is tested",
 		"DESIGN's clause 'remove/findSubscribers return on error before touching the trie': not a necessary condition (all callers ignore these errors; on that path levels is nil and only the root is touched, whose clients map the matcher never reads) — deliberately not claimed; same for 'insert stores nothing before the error test'",
 		"that '#' children are not descended into (harmless, see R-C14-1)",
 		"upward order of pruning / stopping at the first non-empty node (memory only: empty residue nodes cannot change routing)",
@@ -137,6 +151,7 @@ func c14(c *core.Ctx) string {
 	c14Prune(e)
 	c14Mutators(e)
 	c14QoS(e)
+	c14Split(e)
 	return "Static shape rules on the MQTT topic trie: the per-level decision of findSubscribers is extracted path-sensitively and compared with the MQTT 3.1.1 table ('#' collects and stops, '+'/equal descend, parent-level '#' after the last level); validation gates, the pruning guard, lock discipline / write sites, QoS provenance, and the all-or-nothing / process-everything contracts of the batch operations the SUBSCRIBE, UNSUBSCRIBE and disconnect paths rely on. Not decided: the trie over whole histories, splitTopic's automaton, pruning order, LRU eviction."
 }
 
